@@ -2,8 +2,9 @@
 
 A case: {"op": "cluster.run", "kind": …, "host": creator host, "breakStale": bool,
          "jobs": [{"blockers": [ids], "cancel": bool}], "ops": [op, …]}      (≤ 40 ops, ≤ 4 handles, ≤ 3 hosts)
-ops: see `parseClusterOp` / `parseClusterXOp` in lean/Driver/Cluster.lean; `{"k": "crash", "op": <api op>, "after": k, "lockGone": b}`
-kills the process performing `op` right before its (k+1)-th file write (see suites/cluster.py).
+ops: see `parseClusterOp` / `parseClusterTOp` in lean/Driver/Cluster.lean; `{"k": "crash", "op": <api op>, "after": k, "lockGone": b}`
+kills the process performing `op` right before its (k+1)-th file write (see suites/cluster.py); with `"torn": true` it is killed
+INSIDE that write: a version file is left EMPTY, for a data file the flag degenerates to the plain crash.
 
 `Sim` is a light-weight stand-in for a sequence of submitter rounds; it only serves to produce operation sequences that
 respect the role protocol and carry well-formed `update_job_status` arguments (as HpcSubmitter.run produces them).  Whether
@@ -311,8 +312,16 @@ def stale_write(rng, h, n, sim):
     return {"k": k, "h": h}
 
 
-def crash_of(rng, inner):
-    """the process performing `inner` is killed before its (k+1)-th file write; one lock section writes at most four files"""
+def crash_of(rng, inner, p_torn=.35):
+    """the process performing `inner` is killed before its (k+1)-th file write; one lock section writes at most four files.
+    With probability `p_torn` it is killed INSIDE that write ("torn"), mostly at a position where the unchanged code writes a
+    version file (version file first, then data file; config pair before job-status pair): 0 = config_version.txt for every
+    config writer (job_status_version.txt for complete_hpc_job_id, whose only pair is the job-status pair), 2 =
+    job_status_version.txt for update / prepare_for_resubmission; sometimes 1 / 3 (a data file: degenerates to the plain crash)"""
+    if rng.random() < p_torn:
+        two_pairs = inner["k"] in ("update", "prepareResubmit")
+        after = rng.choice([0, 0, 0, 2, 2, 1, 3] if two_pairs else [0, 0, 0, 0, 0, 1, 2])
+        return {"k": "crash", "op": inner, "after": after, "lockGone": rng.random() < .7, "torn": True}
     return {"k": "crash", "op": inner, "after": rng.choice([0, 1, 1, 1, 1, 2, 2, 3]), "lockGone": rng.random() < .7}
 
 
@@ -353,12 +362,15 @@ def crash_case_ops(rng, jobs, host, brk):
         victim = rng.choice([s for s in (1, 2) if s not in others])
         inner = {"k": "load", "h": victim, "host": rng.randrange(3), "promote": True, "jobs": True}
     ops.append(crash_of(rng, inner))
-    if rng.random() < .6:
+    # after a kill INSIDE a file write the handles loaded before it (`others`) attempt writes more often: an empty version
+    # file must stop every one of them, whether its copy is older than the contents or not
+    torn = ops[-1].get("torn", False)
+    if rng.random() < (.85 if torn else .6):
         ops.append({"k": "breakMarker"})
     free = [s for s in (1, 2) if s not in others] or [1]
     for _ in range(rng.randrange(2, 8)):
         r = rng.random()
-        if r < .45 and others:
+        if r < (.6 if torn else .45) and others:
             ops.append(stale_write(rng, rng.choice(others), n, sim))
         elif r < .6:
             ops.append({"k": "load", "h": rng.choice(free), "host": rng.randrange(3), "promote": True, "jobs": True})
@@ -510,6 +522,56 @@ def witness_cases():
             {"k": "load", "h": 1, "host": 1, "promote": False, "jobs": False},
             {"k": "crash", "op": {"k": "demote", "h": 0}, "after": after, "lockGone": True},
             {"k": "load", "h": 2, "host": 2, "promote": True, "jobs": True}, {"k": "promote", "h": 1}, {"k": "read"}]})
+    # TORN VERSION FILE: a writer is killed between `open(version file, "w")` and `write()`: the file is EMPTY.  Every reader
+    # dies in int('') - every handle loaded BEFORE (whether its copy is by now older than the contents or not) and every fresh
+    # handle: nothing of that pair is written any more until the file is rewritten by hand.  In each history the FIRST write
+    # after the kill is by a handle whose copy is older than the contents.
+    for after in (0, 2):
+        for gone in (True, False):
+            # a promotion (load + promote) dies inside config_version.txt (after=0; after=2: no such write, the call completes).
+            # Handle 1 was loaded while nobody held the role and two config writes ago (submitter None in memory: its promotion
+            # reads the version file); handle 0 (the creator, demoted) is out of date as well
+            out.append({"op": "cluster.run", "kind": "witness.torn_promote", "host": 0, "breakStale": True, "jobs": two, "ops": [
+                {"k": "demote", "h": 0}, {"k": "load", "h": 1, "host": 1, "promote": False, "jobs": True},
+                {"k": "load", "h": 3, "host": 2, "promote": True, "jobs": True}, {"k": "demote", "h": 3},
+                {"k": "crash", "op": {"k": "load", "h": 2, "host": 2, "promote": True, "jobs": True}, "after": after, "lockGone": gone, "torn": True},
+                {"k": "breakMarker"}, {"k": "promote", "h": 1}, {"k": "breakMarker"}, {"k": "markCanceled", "h": 0}, {"k": "breakMarker"},
+                upd(1, [1], [], [], [], [2], 2), {"k": "breakMarker"}, {"k": "promote", "h": 3}, {"k": "breakMarker"},
+                {"k": "load", "h": 2, "host": 1, "promote": True, "jobs": True}, {"k": "breakMarker"}, {"k": "read"}]})
+            # the holder dies in update_job_status inside config_version.txt (0) / job_status_version.txt (2: the config pair is
+            # complete by then); handle 1 (loaded one update earlier: both copies out of date) and handle 2 (loaded right before
+            # the kill) write
+            out.append({"op": "cluster.run", "kind": "witness.torn_update", "host": 0, "breakStale": True, "jobs": two, "ops": [
+                upd(0, [0], [], [], [], [1], 2), {"k": "load", "h": 1, "host": 1, "promote": False, "jobs": True},
+                upd(0, [], [], [], [0], [1], 2), {"k": "load", "h": 2, "host": 2, "promote": False, "jobs": True},
+                {"k": "crash", "op": upd(0, [1], [], [], [], [1, 2], 3), "after": after, "lockGone": gone, "torn": True},
+                {"k": "breakMarker"}, {"k": "markCanceled", "h": 1}, {"k": "breakMarker"}, {"k": "completeHpcId", "h": 1, "id": 1}, {"k": "breakMarker"},
+                upd(1, [1], [], [], [], [1, 2], 3), {"k": "breakMarker"}, {"k": "completeHpcId", "h": 2, "id": 1}, {"k": "breakMarker"},
+                upd(2, [1], [], [], [], [1, 2], 3), {"k": "breakMarker"}, {"k": "markCanceled", "h": 2}, {"k": "breakMarker"},
+                {"k": "load", "h": 3, "host": 0, "promote": False, "jobs": False}, {"k": "demote", "h": 3}, {"k": "breakMarker"},
+                upd(3, [], [], [], [], [], 3), {"k": "breakMarker"}, {"k": "read"}]})
+    for gone in (True, False):
+        # the holder dies in demote_from_submitter inside config_version.txt: the role is never cleared and cannot be taken
+        out.append({"op": "cluster.run", "kind": "witness.torn_demote", "host": 0, "breakStale": True, "jobs": two, "ops": [
+            {"k": "load", "h": 1, "host": 1, "promote": False, "jobs": False}, upd(0, [0], [], [], [], [1], 2),
+            {"k": "crash", "op": {"k": "demote", "h": 0}, "after": 0, "lockGone": gone, "torn": True},
+            {"k": "breakMarker"}, {"k": "markCanceled", "h": 1}, {"k": "breakMarker"},
+            {"k": "load", "h": 2, "host": 2, "promote": True, "jobs": True}, {"k": "promote", "h": 1},
+            {"k": "load", "h": 3, "host": 0, "promote": False, "jobs": True},
+            {"k": "demote", "h": 3}, {"k": "breakMarker"}, {"k": "completeHpcId", "h": 3, "id": 1}, {"k": "read"}]})
+        # complete_hpc_job_id dies inside job_status_version.txt; the config pair stays writable, the job-status pair does not;
+        # prepare_for_resubmission (no lock) rewrites the config and then dies reading the empty file; a hand-written version
+        # file (forgeJsVer) ends the state
+        out.append({"op": "cluster.run", "kind": "witness.torn_hpcid", "host": 0, "breakStale": True, "jobs": two, "ops": [
+            upd(0, [0, 1], [], [], [], [1], 2), {"k": "load", "h": 1, "host": 1, "promote": False, "jobs": True},
+            upd(0, [], [], [], [0, 1], [1], 2), {"k": "load", "h": 2, "host": 2, "promote": False, "jobs": False},
+            {"k": "crash", "op": {"k": "completeHpcId", "h": 0, "id": 1}, "after": 0, "lockGone": gone, "torn": True},
+            {"k": "breakMarker"}, {"k": "completeHpcId", "h": 1, "id": 1}, {"k": "breakMarker"}, upd(1, [], [], [], [], [], 2), {"k": "breakMarker"},
+            upd(2, [], [], [], [], [], 2), {"k": "breakMarker"},
+            {"k": "load", "h": 3, "host": 0, "promote": False, "jobs": True}, {"k": "markComplete", "h": 3},
+            {"k": "prepareResubmit", "h": 3, "sel": [0], "blockers": []}, {"k": "read"},
+            {"k": "forgeJsVer", "n": 3}, {"k": "load", "h": 1, "host": 0, "promote": False, "jobs": True},
+            {"k": "completeHpcId", "h": 1, "id": 1}, {"k": "read"}]})
     # canceled chain reported the way a round does it
     three = [{"blockers": [], "cancel": False}, {"blockers": [0], "cancel": True}, {"blockers": [1], "cancel": True}]
     out.append({"op": "cluster.run", "kind": "witness.cancel_chain", "host": 0, "breakStale": True, "jobs": three, "ops": [
